@@ -153,6 +153,8 @@ def input_leaves(inp):
 def make_scenario(wf, script, inp, schedule=None, timeout_ms=20000, **kw):
     sc = {'files': {'workflow.yaml': render_workflow(wf)}, 'main': 'workflow.yaml', 'runs': [{'input': inp}],
           'script': script, 'timeout_ms': timeout_ms}
+    for fname, sub in (kw.pop('subwfs', None) or {}).items():
+        sc['files'][fname] = render_workflow(sub)
     if schedule:
         sc['schedule'] = schedule
     sc.update(kw)
